@@ -397,11 +397,11 @@ func coerceDevs(c *core.Ctx) []string {
 }
 
 func checkC14(c *core.Ctx) {
-	c.Rule = "cases are (variable type, default, supplied Go value) triples: (a) the bounded universe enumerated by TLC in Coerce_MC (every type of list depth <= D with every non-null pattern over Int, String, E, In, Any (+ Float, Boolean, ID in the thorough tier); conforming values and values with a defect at each depth: null, wrong kind, unknown / missing field, single value for a list, the json.Number forms), each run through validate + VariableValues and compared with the expected result printed by the specification; (b) type-directed random values, deeper and wider, whose recorded outcome is re-computed by Coerce_Trace. Non-trivial = cases whose value is a list or a map or is rejected; distinct by (type, default, value)"
+	c.Rule = "cases are (variable type, default, supplied Go value) triples: (a) the bounded universe enumerated by TLC in Coerce_MC (every type of list depth <= D with every non-null pattern over Int, String, E, In, Any (+ Float, Boolean, ID in the thorough tier); conforming values and values with a defect at each depth: null, wrong kind, unknown / missing field, a __typename key beside a missing required field, single value for a list, the json.Number forms, strings in non-decimal integer syntax), each run through validate + VariableValues and compared with the expected result printed by the specification; (b) type-directed random values, deeper and wider, whose recorded outcome is re-computed by Coerce_Trace. Non-trivial = cases whose value is a list or a map or is rejected; distinct by (type, default, value)"
 	c.Assumptions = []string{
 		"Coerce.tla is the reading of CoerceVariableValues with the library's documented scalar kind table (DESIGN.md appendix B)",
 		"Go values are built from the abstract value in several JSON-like Go kinds (int/int32/int64, float32/64, json.Number, []interface{}, typed slices, map[string]interface{}); the projection of results back is trusted",
-		"the key __typename inside input objects is outside the quantifier",
+		"the key __typename inside input objects is tolerated with any value and kept (the library's documented behaviour, modelled in Coerce.tla)",
 	}
 	devs := coerceDevs(c)
 	c.SetExtra("deviations_enabled", devs)
